@@ -118,3 +118,38 @@ Proof.
   intro H; inversion H; subst.
   apply Z.eqb_eq in A, B, C. apply Z.leb_le in D. repeat split; auto. exists hs; auto.
 Qed.
+
+(* ---- the batch of the cos / sin caches of RotaryEmbedding-23 (fix c0398a5 / ready C19_07) --------------------------- *)
+(* repaired rewrite: whenever the pattern's broadcast is well-formed, the cache the fused node receives has x's batch.
+   Hypothesis Hsame: dims that _ir_utils.same_dim identifies (equal static sizes, or one NAMED symbol) are equal at run time. *)
+Theorem rope23_expand_fixed : forall freqs xb fb_rt xb_rt,
+  (0 < xb_rt)%Z -> rope23_pattern_ok fb_rt xb_rt = true ->
+  (forall fb a b, freqs = Some [fb; a; b] -> same_dim fb xb = true -> fb_rt = xb_rt) ->
+  rope23_operator_ok (cache_batch_after (rope23_expands true freqs xb) fb_rt xb_rt) xb_rt = true.
+Proof.
+  intros freqs xb fb_rt xb_rt Hx Hp Hsame. unfold rope23_operator_ok, cache_batch_after, rope23_expands. simpl.
+  unfold rope23_pattern_ok in Hp. apply orb_prop in Hp.
+  assert (M : Z.max fb_rt xb_rt = xb_rt) by (destruct Hp as [E|E]; apply Z.eqb_eq in E; lia).
+  destruct freqs as [[|fb [|a [|b [|? ?]]]]|]; simpl; rewrite ?M; try apply Z.eqb_refl.
+  destruct (same_dim fb xb) eqn:E; simpl; rewrite ?M; try apply Z.eqb_refl.
+  rewrite (Hsame fb a b eq_refl E). apply Z.eqb_refl.
+Qed.
+(* as read (no Expand): the fused node is acceptable iff freqs already has x's batch *)
+Theorem rope23_as_read_ok_iff : forall freqs xb fb_rt xb_rt,
+  rope23_operator_ok (cache_batch_after (rope23_expands false freqs xb) fb_rt xb_rt) xb_rt = true <-> fb_rt = xb_rt.
+Proof. intros. unfold rope23_operator_ok, cache_batch_after, rope23_expands. simpl. apply Z.eqb_eq. Qed.
+(* FINDING (fixed): freqs [1,S,E] against x of batch 2 -- the pattern broadcasts, the operator does not *)
+Theorem rope23_as_read_refuted : exists freqs xb fb_rt xb_rt,
+  rope23_pattern_ok fb_rt xb_rt = true
+  /\ rope23_operator_ok (cache_batch_after (rope23_expands false freqs xb) fb_rt xb_rt) xb_rt = false
+  /\ rope23_operator_ok (cache_batch_after (rope23_expands true freqs xb) fb_rt xb_rt) xb_rt = true.
+Proof. exists (Some [1; 3; 4]%Z), 2%Z, 1%Z, 2%Z. repeat split; vm_compute; reflexivity. Qed.
+(* the Expand is omitted only for provably equal batch dims (static or one named symbol), never for unnamed dims *)
+Theorem rope23_no_expand_iff : forall freqs xb, rope23_expands true freqs xb = false <->
+  exists fb a b, freqs = Some [fb; a; b] /\ fb = xb /\ fb <> (-1)%Z.
+Proof.
+  intros freqs xb. unfold rope23_expands, same_dim. simpl. rewrite negb_false_iff. split.
+  - destruct freqs as [[|fb [|a [|b [|? ?]]]]|]; try discriminate. intro E. apply andb_prop in E. destruct E as [E1 E2].
+    apply Z.eqb_eq in E1. apply negb_true_iff in E2. apply Z.eqb_neq in E2. eauto 6.
+  - intros (fb & a & b & -> & -> & N). rewrite Z.eqb_refl. simpl. apply negb_true_iff. apply Z.eqb_neq. exact N.
+Qed.
